@@ -425,7 +425,7 @@ def render_params(rng, vals, lay, cmt_at):
 
 RISKY = ["comment-before-semicolon", "comment-between-id-and-eq", "comment-before-endsec", "whitespace-after-keyword",
          "comment-between-keyword-and-paren", "two-comments-one-instance", "two-comments-before-instance",
-         "apostrophe-in-comment", "comment-open-in-comment", "id-above-int-max"]
+         "apostrophe-in-comment", "comment-open-in-comment", "id-above-int-max", "comment-above-8192"]
 
 
 def render_instance(rng, x, lay=True, cmt=True, risky=None):
@@ -445,6 +445,9 @@ def render_instance(rng, x, lay=True, cmt=True, risky=None):
     if risky in ("apostrophe-in-comment", "comment-open-in-comment"):
         body = rng.choice(["it's here", "don't", "'", " a'b'c "]) if risky == "apostrophe-in-comment" else rng.choice(["see /* here", "/*", " x /* y /* z "])
         out += "/*" + body + "*/" + ws(rng, lay)
+    if risky == "comment-above-8192":
+        # a conforming comment longer than the eager reader's MAX_COMMENT_LENGTH (read_func.cc ReadComment gives up and skips the instance)
+        out += "/*" + "c" * rng.choice([8193, 8200, 9000, 20000]) + "*/" + ws(rng, lay)
     if risky == "two-comments-before-instance":
         out += comment(rng, semi=False) + ws(rng, lay) + comment(rng, semi=False) + ws(rng, lay)
     if risky == "id-above-int-max":
